@@ -90,6 +90,8 @@ structure Entity where
   attrs : List Attr := []
   uniques : List UniqueRule := []
   wheres : List WhereRule := []
+  /-- the constraint in `[ABSTRACT] SUPERTYPE OF ( … )` as `SUBTYPEto_string` prints it, layout aside -/
+  superExpr : Option String := none
   deriving DecidableEq, Repr, Inhabited
 
 structure Schema where
